@@ -12,7 +12,11 @@ static const char* const jsonpaths[] = {
     "$..['bicycle','book']", "$.store.book[1:3:1].title", "$..book[(@.length-1)]", "$.store.book[*]['title','price']",
     "$..book[?(tokenize(@.author,'\\\\s+')[1] == 'Waugh')].title", "$.store.book[?(@.tags[0] == 'a')]^", "$[?(sum($..price) > 10)]", "$[?(@.store)]",
     "$.store.book[?(!@.isbn || @.price >= 8.99)].price", "$..book[?(ceil(@.price) == 9)].price", "$.store.book[?(contains(@.title,'of'))].title",
-    "$.store.book[*].tags[*]", "$..[?(@.color == 'red')].price", "$.store.book[?(to_number(@.code) > 100)].code", "$.store[?(length(@.book) > 1)]"
+    "$.store.book[*].tags[*]", "$..[?(@.color == 'red')].price", "$.store.book[?(to_number(@.code) > 100)].code", "$.store[?(length(@.book) > 1)]",
+    // the built-ins the corpus did not call before round e (abs, starts_with, ends_with, floor, prod, avg, min, keys, count)
+    "$.store.book[?(abs(@.price - 10) < 5)].title", "$.store.book[?(starts_with(@.title,'S'))].title", "$.store.book[?(ends_with(@.author,'s'))].author",
+    "$.store.book[?(floor(@.price) >= 8)].price", "$[?(prod($..book[*].price) > 1)]", "$[?(avg($..price) > 5)]", "$..book[?(@.price == min($..book[*].price))].title",
+    "$.store[?(length(keys(@)) > 1)]", "$[?(count($..book[*]) > 1)]"
 };
 static const char* const jmespaths[] = {
     "store.book[*].author", "store.book[?price < `10`].title", "sort_by(store.book, &price)[*].title", "store.book[*].{t: title, p: price}",
